@@ -87,8 +87,11 @@ PACK_INV, PACK_VIEWS, PACK_VALIDATE = pack_cells('inv'), pack_cells('views'), pa
 PACK_REACH = pack_cells('reach', 'REFUTED')[1:2]
 DIRECT_INV, DIRECT_VIEWS = direct_cells('inv'), direct_cells('views')
 DIRECT_REACH = direct_cells('reach', 'REFUTED')[:1]
-LOOSE_INV = [cell('loose_inv', 'harness.h_direct', 'loose_inv', (200, 600), bounds=B_LOOSE, samples=S_LOOSE)]
-LOOSE_VIEWS = [cell('loose_views', 'harness.h_direct', 'loose_views', (200, 600), bounds=B_LOOSE, samples=S_LOOSE)]
+LOOSE_INV = [cell('loose_inv', 'harness.h_direct', 'loose_inv', (300, 900), bounds=B_LOOSE, samples=S_LOOSE),
+             cell('loose_inv_big', 'harness.h_direct', 'loose_inv_big', (400, 900),
+                  bounds='s0 in [140000, 6300000] (up to 12 read chunks of 512 KiB); existing form in {loose, packed, both}; damaged loose copy symbolic',
+                  samples=[dict(s0=4500000, form=0, damaged=True), dict(s0=1048576, form=2, damaged=False)])]
+LOOSE_VIEWS = [cell('loose_views', 'harness.h_direct', 'loose_views', (300, 900), bounds=B_LOOSE, samples=S_LOOSE)]
 B_DELETE = 'h0 in [0,3]; s0..s3 in [1,70000]; any subset of {obj0 loose, obj1 loose+packed, obj2 packed, obj3 packed} plus an absent key'
 S_DELETE = [dict(h0=2, s0=5, s1=66000, s2=9, s3=11, d0=True, d1=True, d2=False, d3=True, dabs=True),
             dict(h0=0, s0=5, s1=7, s2=9, s3=11, d0=False, d1=False, d2=True, d3=False, dabs=False)]
@@ -103,6 +106,11 @@ DAMAGE = [
     cell('damage_size', 'harness.h_damage', 'damage_size', (200, 600), bounds=B_DAMAGE, samples=[dict(S_DAMAGE, a=-1)]),
     cell('damage_truncate', 'harness.h_damage', 'damage_truncate', (200, 600), bounds=B_DAMAGE, samples=[dict(S_DAMAGE, a=0), dict(S_DAMAGE, a=10)]),
     cell('damage_flip', 'harness.h_damage', 'damage_flip', (200, 600), bounds=B_DAMAGE, samples=[dict(S_DAMAGE, a=0, n=2), dict(S_DAMAGE, a=5, n=9)]),
+    cell('damage_zloose', 'harness.h_damage', 'damage_zloose', (300, 900), bounds=B_DAMAGE + '; obj2 packed (compressed or not) AND loose, loose copy damaged', samples=[dict(S_DAMAGE, s2=900, n=3, z2=True, z=30), dict(S_DAMAGE, s2=900, n=900, z2=False, z=30)]),
+    cell('damage_zflag', 'harness.h_damage', 'damage_zflag', (300, 900), bounds=B_DAMAGE + '; compressed flag of a row flipped', samples=[dict(S_DAMAGE, s2=900, z2=True, z=30), dict(S_DAMAGE, s2=900, z2=False, z=30)]),
+    cell('damage_zpack', 'harness.h_damage', 'damage_zpack', (300, 900), bounds=B_DAMAGE + '; compressed obj2: sub-range flipped or pack truncated', samples=[dict(S_DAMAGE, s2=900, a=10, n=5, z=30), dict(S_DAMAGE, s2=900, a=12, n=0, z=30)]),
+    cell('damage_zrow', 'harness.h_damage', 'damage_zrow', (300, 900), bounds=B_DAMAGE + '; offset/length/size of the row of a compressed object perturbed', samples=[dict(S_DAMAGE, s2=900, a=-3, field=0, z=30), dict(S_DAMAGE, s2=900, a=3, field=1, z=30), dict(S_DAMAGE, s2=900, a=-3, field=2, z=30)]),
+    cell('damage_packid', 'harness.h_damage', 'damage_packid', (200, 600), bounds=B_DAMAGE + '; pack_id of a row perturbed', samples=[dict(S_DAMAGE, a=1)]),
     cell('damage_reach', 'harness.h_damage', 'damage_reach', (120, 300), bounds=B_DAMAGE, expect='REFUTED'),
 ]
 DELETE_REACH = [cell('delete_reach', 'harness.h_delete', 'delete_reach', (120, 300), bounds=B_DELETE, expect='REFUTED')]
@@ -141,6 +149,50 @@ def monitor_cells(ops):
                 out.append(cell(prefix + 'monitor_' + op, 'harness.g_crash', prefix + 'monitor_' + op, (300, 900),
                                 bounds=bounds + '; op=' + op, samples=[S_CRASH], thorough_only=thorough_only))
     return out
+
+
+# ---------------------------------------------------------------- compression (C10 and the compressed paths of C01 C02 C03 C12 C13)
+B_COMP = ('sizes in [0|1,70000] (2500 in the AUTO cells: the sampling loop of estimate_compression runs once per KiB); '
+          'compressed length of every object symbolic in [2,70000], independent of its size; bytes emitted by the first '
+          'compress() call symbolic; ')
+S_CPACK = [dict(pz=True, h0=2, sp=100, zp=50, s0=0, z0=8, s1=2400, z1=300, early=7, target=10**5),
+           dict(pz=False, h0=0, sp=2000, zp=50, s0=2200, z0=2300, s1=1500, z1=300, early=0, target=100)]
+S_CREPACK = [dict(h0=2, s0=2400, z0=300, f0=True, s1=5, z1=13, f1=False, early=3),
+             dict(h0=0, s0=1500, z0=300, f0=False, s1=50, z1=47, f1=True, early=0)]
+S_CDIRECT = [dict(h0=1, s0=100, z0=50, s1=66000, z1=300, s2=5, z2=13, early=3, target=10**6, read_twice=True),
+             dict(h0=1, s0=100, z0=50, s1=66000, z1=300, s2=0, z2=13, early=0, target=320, read_twice=False)]
+CPACK = [cell('cpack_check_' + m, 'harness.g_comp', 'cpack_check_' + m, (500, 1500), samples=S_CPACK,
+              bounds=B_COMP + 'pack_all_loose(compress=%s) from a pack holding a compressed or plain object; symbolic pack target' % m)
+         for m in ('yes', 'no', 'keep', 'auto', 'true', 'false')]
+CREPACK = [cell('crepack_check_' + m, 'harness.g_comp', 'crepack_check_' + m, (500, 1500), samples=S_CREPACK,
+                bounds=B_COMP + 'repack(%s) of a pack with holes holding two objects in symbolic forms' % m)
+           for m in ('yes', 'no', 'keep', 'auto')]
+CREPACK2 = [cell('crepack2_%s_%s' % (a, b), 'harness.g_comp', 'crepack2_%s_%s' % (a, b), (900, 1800), samples=S_CREPACK,
+                 thorough_only=True, bounds=B_COMP + 'two chained repacks (%s then %s)' % (a, b))
+            for a in ('yes', 'no', 'keep', 'auto') for b in ('yes', 'no', 'keep', 'auto')]
+CDIRECT = [cell('cdirect_check_p%d_%s' % (d, nh), 'harness.g_comp', 'cdirect_check_p%d_%s' % (d, nh), (500, 1500), samples=S_CDIRECT,
+                bounds=B_COMP + 'add_streamed_objects_to_pack(compress=True), duplicate at batch position %d, %s' % (d, nh))
+           for d in (0, 1, 2, 3) for nh in ('noholes', 'holes')]
+COMP_REACH = [cell('cpack_reach_yes', 'harness.g_comp', 'cpack_reach_yes', (200, 400), expect='REFUTED'),
+              cell('crepack_reach_auto', 'harness.g_comp', 'crepack_reach_auto', (200, 400), expect='REFUTED'),
+              cell('cdirect_reach_p1_noholes', 'harness.g_comp', 'cdirect_reach_p1_noholes', (200, 400), expect='REFUTED')]
+SHOULD = [
+    cell('should_modes', 'harness.h_comp', 'should_modes', (300, 900), bounds='YES/NO/KEEP; length,size in [0,300000]; stream position symbolic',
+         samples=[dict(mode=2, source_compressed=True, length=50, size=100, spos=3, zs=20, z=30)]),
+    cell('should_auto_packed', 'harness.h_comp', 'should_auto_packed', (300, 900), bounds='AUTO on a compressed source: decision = length/size < 0.9 (size 0: never)',
+         samples=[dict(length=95, size=100, spos=100, zs=20, z=30), dict(length=0, size=0, spos=0, zs=20, z=30)]),
+    cell('should_auto_small', 'harness.h_comp', 'should_auto_small', (500, 1200), bounds='AUTO on an uncompressed source of <= 16 KiB: position restored',
+         samples=[dict(size=3000, spos=7, zs=20, z=30), dict(size=0, spos=0, zs=20, z=30)]),
+    cell('should_auto_big', 'harness.h_comp', 'should_auto_big', (500, 1200), bounds='AUTO on an uncompressed source of 128 KiB .. 300000 bytes (128 samples): position restored',
+         samples=[dict(size=200000, spos=5, zs=20, z=30)]),
+]
+F_COMP = ['utils.should_compress', 'utils.estimate_compression', 'utils.get_compressobj_instance',
+          'utils._get_compression_algorithm_info', 'utils.ZlibStreamDecompresser', 'Container.repack', 'Container.repack_pack',
+          'Container.get_total_size', 'Container.get_objects_meta', 'Container.validate']
+A_COMP = ('zlib replaced by a deterministic member of its documented contract (vf/menv.py ModelZlib: a compressed stream is an '
+          'opaque token of symbolic length that inflates to the whole object; the inflater delivers the plain bytes once all '
+          'but the last compressed byte were offered and honours max_length / unconsumed_tail / eof; anything else is a codec '
+          'error); the compression level reaches only this stub (asserted to be 1..9); correctness of zlib itself trusted')
 
 
 # ---------------------------------------------------------------- import (C14)
@@ -211,9 +263,34 @@ CHECKS = {
                  'view in {has_objects, get_objects_content, get_objects_meta, get_object_content}',
                  samples=[dict(s0=5, s1=7, tw1=-1, tp0=1, tc0=2, tu0=3, tp1=2, tc1=4, tu1=6, pre_q=True, mode=1)]),
             cell('reader2_reach', 'harness.h_rely', 'reader2_reach', (120, 300), expect='REFUTED'),
+        ] + [
+            cell('writer_dup_d%d' % dr, 'harness.h_sched', 'writer_dup_d%d' % dr, (400, 1200), replay_sweep={'tu': list(range(1, 61))},
+                 bounds='loose writer adding known content (loose + packed) and new content; the cleaner unlinks the loose copy '
+                 'at observation tu in [1,60] of the writer, another writer re-creates it %d observations later (0 = never); '
+                 'sizes in [1,70000]' % dr,
+                 samples=[dict(s0=66000, s1=5, tu=9), dict(s0=5, s1=7, tu=12)])
+            for dr in (0, 1, 3)
+        ] + [
+            cell('seeker_p%d_d%d' % (prog, d2), 'harness.h_sched', 'seeker_p%d_d%d' % (prog, d2), (400, 1200),
+                 replay_sweep={'t1': list(range(1, 81))},
+                 bounds='reader seeking in a compressed packed object (program %d of {seek(0,2)+seek(0)+read, read(1)+seek(-1,1)+read, '
+                 'seek(-1,2)+read}): the re-loosened cache copy is unlinked by the cleaner at observation t1 in [1,80] and again '
+                 '%d observations later (0 = once)' % (prog, d2),
+                 samples=[dict(s0=66000, z0=50, t1=7), dict(s0=5, z0=50, t1=20)])
+            for prog in (0, 1, 2) for d2 in (0, 2)
+        ] + [
+            cell('writer_reach', 'harness.h_sched', 'writer_reach', (120, 300), expect='REFUTED'),
+            cell('seeker_reach', 'harness.h_sched', 'seeker_reach', (120, 300), expect='REFUTED'),
         ],
-        functions=F_READ,
-        assumptions=['rely/guarantee: the loose writers and the packer are symbolic instants t_w <= t_p < t_c < t_u per '
+        functions=F_READ + ['Container.add_streamed_object', 'utils.ObjectWriter.__enter__/__exit__', 'utils._compute_hash_for_file',
+                            'utils.LazyLooseStream.open_stream', 'Container.loosen_object',
+                            'utils.ZlibLikeBaseStreamDecompresser.seek/_seek_internal'],
+        assumptions=['writer and seeking reader: the real code runs on the model file system; the effects of the other actors '
+                     '(cleaner unlinks a loose file whose row is committed; another writer re-creates it) are scheduled events '
+                     'fired when the observation clock of the actor under test (every path-level file-system call) reaches a '
+                     'symbolic instant; counterexamples are replayed on the REAL file system with the same events fired by a '
+                     'counting proxy around os/open/Path (instants swept, the two environments number calls differently)',
+                     'rely/guarantee: the loose writers and the packer are symbolic instants t_w <= t_p < t_c < t_u per '
                      'object (the orderings C05/C06 establish for the packer); the reader runs for real and every stat/'
                      'open/SQL observation compares its own step counter with those instants; one packer run (one unlink '
                      'per key); writers under the rely are not covered; counterexamples are replayed on the real code over '
@@ -251,9 +328,20 @@ CHECKS = {
             cell('zread_big', 'harness.h_zread', 'zread_big', (540, 1500), bounds=B_ZREAD + '; 524288 < a <= 2100000',
                  samples=[dict(S_ZREAD, a=600000, tape=[0, 40, 100])], replay_mode='model'),
             cell('zread_reach', 'harness.h_zread', 'zread_reach', (200, 400), bounds=B_ZREAD, expect='REFUTED'),
+            cell('zseek_zero', 'harness.h_zread', 'zseek_zero', (540, 1500), bounds=B_ZREAD + '; seek(0,0) then read(a), a <= 600000', replay_mode='model',
+                 samples=[dict(n=100, total=40, before=1, pos=10, c=20, u=0, a=7, tape=[30, 10, 7])]),
+            cell('zseek_back', 'harness.h_zread', 'zseek_back', (540, 1500), bounds='n <= 200000; symbolic stream state; seek(t,0) with -2 <= t < pos then read(a <= 1000); tape <= 7', replay_mode='model',
+                 samples=[dict(n=100, total=40, before=1, pos=10, c=20, u=0, t=5, a=7, tape=[30, 10, 5, 0, 5, 20, 2])]),
+            cell('zseek_fwd', 'harness.h_zread', 'zseek_fwd', (540, 1500), bounds='n <= 200000; symbolic stream state; seek(t,0) with pos <= t <= n+10 then read(a <= 1000); tape <= 7', replay_mode='model',
+                 samples=[dict(n=100, total=40, before=1, pos=10, c=20, u=0, t=50, a=7, tape=[30, 20, 40])]),
+            cell('zseek_rel', 'harness.h_zread', 'zseek_rel', (540, 1500), bounds='n <= 200000; symbolic stream state; seek(t,1) then read(a <= 1000); tape <= 7', replay_mode='model',
+                 samples=[dict(n=100, total=40, before=1, pos=10, c=20, u=0, t=-5, a=7, tape=[30, 10, 5, 0, 5, 20, 2])]),
+            cell('zseek_far', 'harness.h_zread', 'zseek_far', (540, 1500), bounds='n in [262000,600000]; initial stream state; seek(t,0) across the 256 KiB step of _seek_internal; tape <= 9', replay_mode='model',
+                 samples=[dict(n=300000, total=40, t=280000, a=7, tape=[40, 262144, 0, 17856, 0, 7])]),
+            cell('zseek_reach', 'harness.h_zread', 'zseek_reach', (300, 600), expect='REFUTED'),
         ],
         functions=['utils.PackedObjectReader.__init__/seek/tell/read/_update_pos',
-                   'utils.ZlibLikeBaseStreamDecompresser.read/_read_compressed/tell'],
+                   'utils.ZlibLikeBaseStreamDecompresser.read/_read_compressed/tell/seek/_seek_internal'],
         assumptions=['packed uncompressed form: bounded programs on PackedObjectReader over a pack with neighbours (replayed on '
                      'a real file); packed compressed form: ONE read(a) step of the streaming decompresser from an arbitrary '
                      'symbolic stream state (bytes consumed/produced, internal buffer, unconsumed tail up to one chunk) under '
@@ -282,6 +370,15 @@ CHECKS = {
         assumptions=['duplicates of already packed content at any batch position, duplicate inside the batch, known '
                      'content re-added loose (existing copy loose/packed/both, possibly damaged)'],
     ),
+    'C10': dict(
+        cells=CPACK + CREPACK + CREPACK2 + CDIRECT + COMP_REACH + SHOULD,
+        functions=F_COMP + F_WRITE + F_READ,
+        assumptions=[A_COMP, 'mode honoured: YES/True => stored compressed, NO/False => not, KEEP => as before (loose objects: '
+                     'not compressed), AUTO => either; recorded size = content length, recorded length = bytes occupied (every '
+                     'pack is exactly its holes plus the recorded lengths), get_total_size = sums, get_objects_meta = the rows; '
+                     'read-back unchanged through every view; chained repacks only in the thorough tier (16 mode pairs); AUTO '
+                     'cells bounded to objects <= 2500 bytes (3 sampling iterations)'],
+    ),
     'C11': dict(
         cells=DELETE_REPACK + DELETE_VIEWS + DELETE_REACH,
         functions=['Container.delete_objects', 'Container.repack', 'Container.repack_pack', 'utils.should_compress (KEEP)']
@@ -295,8 +392,10 @@ CHECKS = {
                      'the symbolic pre-states; no false negatives: ONE damage (loose file replaced by junk of symbolic length; '
                      'offset / length / size of a row perturbed by a symbolic delta; pack truncated at a symbolic position; a '
                      'symbolic sub-range of the pack flipped) and the relational oracle "some object unreadable / different '
-                     'bytes / size mismatch => validate() not clean or raises"; uncompressed objects only, `compressed` '
-                     'flag flips and pack_id perturbations not covered'],
+                     'bytes / size mismatch => validate() not clean or raises"; readers in the antecedent: whole read, '
+                     'metadata, and a stream that seeks from the end first (served from the re-loosened cache for compressed '
+                     'objects); compressed objects under the deterministic model zlib (any foreign byte in a stream is a '
+                     'codec error), `compressed` flag flips, pack_id perturbations, doubly stored (loose + packed) objects'],
     ),
     'C13': dict(
         cells=PACK_INV + DIRECT_INV + PACK_REACH + DIRECT_REACH,
@@ -315,6 +414,35 @@ CHECKS = {
                      'objects), the three cache branches (symbolic target_memory_bytes, sizes), source x destination forms '
                      '(incl. compressed source objects and compress=True), destination pack switching; the families are '
                      'not crossed with each other'],
+    ),
+    'C15': dict(
+        cells=[
+            cell('backup_sched_%s_%s' % (wl, cl), 'harness.h_backup', 'backup_sched_%s_%s' % (wl, cl), (600, 1500),
+                 bounds='live container: 2 loose + 1 packed object; another client adds a loose object (ta), packs all '
+                 '(tp, clean_loose_per_pack=%s), cleans (tc >= tp), writes directly to a pack (td), each a whole operation at an '
+                 'instant in [5,11] of the backup clock (before each of: loose copy, index dump, dump transfer, packs copy, copy '
+                 'of the rest, rename; 11 = after); %s; s0 in [1,70000]' % (cl == 'clean', 'a further client keeps an index '
+                 'connection open all the time' if wl == 'wal' else 'no other connection besides the acting client'),
+                 samples=[dict(s0=66000, ta=5, tp=6, tc=7, td=9), dict(s0=5, ta=7, tp=5, tc=5, td=11)])
+            for wl in ('nowal', 'wal') for cl in ('keep', 'clean')
+        ] + [
+            cell('backup_again', 'harness.h_backup', 'backup_again', (900, 1800), thorough_only=True,
+                 bounds='two successive backups (the second incremental on the first), events during the first',
+                 samples=[dict(s0=66000, wal=False, tp=6, tc=7, td=8, cl=False)]),
+            cell('backup_reach', 'harness.h_backup', 'backup_reach', (300, 600), expect='REFUTED'),
+        ],
+        functions=['backup_utils.backup_container', 'backup_utils.BackupManager.__init__/call_rsync/run_cmd/backup_auto_folders/'
+                   'get_existing_backup_folders/get_last_backup_folder/delete_old_backups', 'backup_utils._sqlite_backup',
+                   'Container.pack_all_loose', 'Container.clean_storage', 'Container.add_streamed_object',
+                   'Container.add_streamed_objects_to_pack', 'Container.validate'] + F_READ,
+        assumptions=['the real backup code runs on a model shell (vf/mshell.py): rsync with the options the code emits '
+                     '(--exclude NAME unanchored name match, trailing-slash semantics, no --delete, --link-dest content-neutral), '
+                     'mkdir/find/mv/ln/rm, sqlite3 online backup = consistent copy of the latest committed version, WAL mode '
+                     'index = main file (last checkpoint) + -wal (commits since, present while a connection is open, replayed by '
+                     'SQLite when found next to a database file) + -shm; the concurrent clients act at PHASE granularity (whole '
+                     'real operations before/between the copy phases), not inside one rsync transfer and not half-way through '
+                     'one of their own operations; local destination only (no ssh remote); counterexamples are replayed with the '
+                     'real rsync and real SQLite, the same events fired at the same subprocess/sqlite call numbers'],
     ),
     'C16': dict(
         cells=[
